@@ -1,5 +1,5 @@
 //! C12 — all events of a context live on one shard; unscoped reads cover all shards.
-//! Context-id alphabet x shard counts 1..8, 11, 12, 16, two process lifetimes.
+//! Context-id alphabet x shard counts 1..8, 11, 12, 16, 300, two process lifetimes.
 use crate::job::{Op, SnapMode};
 use crate::lab::*;
 use crate::sys::SysConfig;
@@ -46,7 +46,7 @@ pub fn check(tier: &str) -> i32 {
     let scratch = Scratch::new("c12");
     let ctxs = contexts(tier);
     // two-digit shard numbers too (directory names shard-10, shard-11, ...)
-    let shard_counts: Vec<usize> = (1..=8).chain([11, 12, 16]).collect();
+    let shard_counts: Vec<usize> = (1..=8).chain([11, 12, 16, 300]).collect();
     let restarts = ["clean", "kill"];
     let work: Vec<(usize, &str)> = shard_counts.iter().flat_map(|n| restarts.iter().map(move |r| (*n, *r))).collect();
     let res = par_map(&work, threads(), |wi, (n, restart)| -> Result<(Vec<String>, usize), String> {
@@ -227,7 +227,7 @@ pub fn check(tier: &str) -> i32 {
         coverage: json!({
             "evaluations": judged,
             "distinct_nontrivial": ctxs.len() * work.len(),
-            "rule": format!("{} context ids (all strings of length <= 3 over a 9-symbol alphabet incl. upper/lower case, punctuation and a non-ASCII letter (length 3 thinned in quick), case / whitespace variants, CJK, 1 KB ids) x shard counts 1..8, 11, 12, 16 x restart kind {{clean shutdown, kill}}: one STORE per context in each of two process lifetimes (different hash seeds), then QUERY FOR each context, REPLAY FOR 40 of them, a second event type stored and read for 60 of them, one unscoped QUERY, and the WAL directories on disk; distinct_nontrivial = (context, shard count, restart) triples", ctxs.len()),
+            "rule": format!("{} context ids (all strings of length <= 3 over a 9-symbol alphabet incl. upper/lower case, punctuation and a non-ASCII letter (length 3 thinned in quick), case / whitespace variants, CJK, 1 KB ids) x shard counts 1..8, 11, 12, 16, 300 x restart kind {{clean shutdown, kill}}: one STORE per context in each of two process lifetimes (different hash seeds), then QUERY FOR each context, REPLAY FOR 40 of them, a second event type stored and read for 60 of them, one unscoped QUERY, and the WAL directories on disk; distinct_nontrivial = (context, shard count, restart) triples", ctxs.len()),
             "samples": ctxs.iter().step_by((ctxs.len() / 10).max(1)).take(10).map(|c| json!(if c.len() > 40 { format!("{}...<{} bytes>", &c.chars().take(20).collect::<String>(), c.len()) } else { c.clone() })).collect::<Vec<_>>(),
             "contexts": ctxs.len(),
             "shard_counts": shard_counts,
